@@ -1,6 +1,6 @@
 use crate::wal::block::{Block, Metadata};
 use crate::wal::config::{
-    DEFAULT_BLOCK_SIZE, FsyncSchedule, MAX_FILE_SIZE, PREFIX_META_SIZE, debug_print,
+    BLOCKS_PER_FILE, DEFAULT_BLOCK_SIZE, FsyncSchedule, MAX_FILE_SIZE, PREFIX_META_SIZE, debug_print,
 };
 use crate::wal::paths::WalPathManager;
 use crate::wal::storage::{SharedMmapKeeper, set_fsync_schedule};
@@ -289,12 +289,13 @@ impl Walrus {
             debug_print!("[recovery] scanning files: {}", files.len());
         }
 
-        // synthetic block ids btw
-        let mut next_block_id: usize = 1;
+        // Block ids are positional (file rank * BLOCKS_PER_FILE + unit index + 1), exactly as
+        // the allocator hands them out; see BlockAllocator::file_base.
+        let mut next_block_id: usize;
         let mut seen_files = HashSet::new();
         let mut topic_block_entry_counts: HashMap<String, Vec<u64>> = HashMap::new();
 
-        for file_path in files.iter() {
+        for (file_rank, file_path) in files.iter().enumerate() {
             let mmap = match SharedMmapKeeper::get_mmap_arc(file_path) {
                 Ok(m) => m,
                 Err(e) => {
@@ -311,21 +312,19 @@ impl Walrus {
             let scan_limit = (mmap.len() as u64).min(MAX_FILE_SIZE);
             let mut block_offset: u64 = 0;
             // Units that were handed out as a block but never written (a writer's initial block
-            // whose first entry did not fit, a failed first append) stay zeroed while later
-            // units of the same file hold data. They must not end the scan; they consumed a
-            // block id, which is accounted for as soon as data is found behind them (trailing
-            // zero units are simply unallocated space and consume nothing).
-            let mut pending_empty_units: usize = 0;
+            // whose first entry did not fit, the blocks of a rolled-back batch) stay zeroed
+            // while later units of the same file hold data: they are skipped, not the end of the
+            // scan. Ids are positional, so skipping them needs no accounting.
             while block_offset + DEFAULT_BLOCK_SIZE <= scan_limit {
                 let mut probe = [0u8; 8];
                 mmap.read(block_offset as usize, &mut probe);
                 if probe.iter().all(|&b| b == 0) {
-                    pending_empty_units += 1;
                     block_offset += DEFAULT_BLOCK_SIZE;
                     continue;
                 }
-                next_block_id += pending_empty_units;
-                pending_empty_units = 0;
+                next_block_id = file_rank * (BLOCKS_PER_FILE as usize)
+                    + (block_offset / DEFAULT_BLOCK_SIZE) as usize
+                    + 1;
 
                 let mut used: u64 = 0;
                 let mut entries_in_block: u64 = 0;
@@ -336,7 +335,6 @@ impl Walrus {
                 let meta_len = (meta_buf[0] as usize) | ((meta_buf[1] as usize) << 8);
                 if meta_len == 0 || meta_len > PREFIX_META_SIZE - 2 {
                     block_offset += DEFAULT_BLOCK_SIZE;
-                    next_block_id += 1;
                     continue;
                 }
                 let mut aligned = rkyv::AlignedVec::with_capacity(meta_len);
@@ -424,7 +422,6 @@ impl Walrus {
                         col_name
                     );
                 }
-                next_block_id += 1;
                 block_offset += block_limit;
             }
         }
@@ -469,7 +466,7 @@ impl Walrus {
         }
 
         unsafe {
-            self.allocator.fast_forward(next_block_id as u64);
+            self.allocator.fast_forward(0);
         }
 
         Ok(())
